@@ -412,7 +412,7 @@ def nontrivial(inp, out):
 
 def hist_key(inp, out):
     L = len(inp['seqs'][0]) if inp['seqs'] else 0
-    return '%s/%s/L%s' % (inp['kind'], 'ok' if out['ok'] else out['err'],
+    return '%s/%s/L%s' % (inp['kind'], ('crash' if out.get('err') else 'ok') if out['ok'] else out['err'],
                           L if L <= 8 else ('9-40' if L <= 40 else '41+'))
 
 
